@@ -1,12 +1,14 @@
 import GoNfsd.Driver.Mkfs
 import GoNfsd.Driver.Xdr
 import GoNfsd.Driver.Fs
+import GoNfsd.Driver.Codec
 
 def main (args : List String) : IO UInt32 :=
   match args with
   | ["mkfs"] => GoNfsd.Driver.Mkfs.main
   | ["xdr"] => GoNfsd.Driver.Xdr.main
   | ["fs"] => GoNfsd.Driver.Fs.main
+  | ["codec"] => GoNfsd.Driver.Codec.main
   | _ => do
     IO.eprintln "usage: drv <mkfs>"
     return 2
